@@ -902,6 +902,23 @@ def c08_molecules(run, rng, budget):
         m = G.gen_mol(rng, family="charged_dt")
         sizes(run, m)
         yield m, {"dt": True, "zeros": True}
+    # fewer than 100 atoms with 100 or more bonds, and the reverse: a two-digit count next to a three-digit one on the
+    # counts line (the fixed-width fields abut)
+    for _ in range(2 * budget):
+        n = rng.randint(40, 99)
+        edges = set()
+        while len(edges) < rng.randint(100, 130):
+            a, b = rng.randrange(n), rng.randrange(n)
+            if a != b:
+                edges.add((min(a, b), max(a, b)))
+        m = G.decorate(n, sorted(edges), rng, family="under_100_atoms_over_99_bonds")
+        sizes(run, m)
+        yield m, None
+        n = rng.randint(100, 130)
+        edges = [(i, i + 1) for i in range(0, rng.randint(20, 98))]
+        m = G.decorate(n, edges, rng, family="over_99_atoms_under_100_bonds")
+        sizes(run, m)
+        yield m, None
     # more than 99 atoms: three-digit numbers fill their columns, so the fields of a bond line abut
     for _ in range(2 * budget):
         n = rng.randint(100, 140)
@@ -1421,8 +1438,17 @@ def work_C15(run, rng, budget):
         if p0 is None:
             continue
         run.corr(*R.op_refine(p0), "observable")
-    for m in molecules(run, rng, 30 * budget):
+    for m in molecules(run, rng, 60 * budget):
         queue_pipeline_ops(run, mol_graph(m))
+        # small molecules of every family, labelled ones included: the pipeline and the parser must return
+        s, err = safe(tucan_of, mol_graph(m))
+        run.case(("C15small", mol_repr(m)), True)
+        if err is not None:
+            run.fail("pipeline-raises-" + type(err).__name__, f"{m.family}: {type(err).__name__}", {"mol": mol_repr(m)})
+            continue
+        h, err = safe(graph_from_tucan, s)
+        if err is not None:
+            run.fail("parser-raises-on-pipeline-output", f"{m.family}: {type(err).__name__} on {s[:60]!r}", {"mol": mol_repr(m), "string": s})
     return "paths, cycles, ladders, combs, peptide backbones up to thousands of atoms, 5000 isolated atoms, 2000 components, K40, " \
            "stars with thousands of leaves, deep binary trees, square grids, K30,30, hundreds of identical rings " \
            "through the real pipeline and parser; model/real round counts compared on the same families at <= 61 atoms; every " \
